@@ -13,7 +13,8 @@ from props import consumer_lib as L
 MODEL = "consumer"
 MODULE = "Model.Consumer"
 THEOREMS = ["C14_growth_rule", "C14_growth_fails_iff_at_max", "C14_growth_step", "C14_growth_fails_step",
-            "C14_reset_policy", "C14_retry_fires", "C14_failure_step", "C14_offset_reply_resets"]
+            "C14_reset_policy", "C14_retry_fires", "C14_failure_step", "C14_offset_reply_resets",
+            "C14_backoff_index", "C14_backoff_step", "C14_attempt_limit", "C14_unlimited_reachable", "C14_limit_in_force"]
 
 
 # ------------------------------------------------------------------ reference functions (restating the theorems)
@@ -392,8 +393,11 @@ def run(ck):
         "checks every float passed to callLater bit for bit against that recurrence computed from afkak.consumer's own constant",
         "the client is a scripted stand-in (send_* return Deferreds the harness fires); KafkaClient itself is covered by C07/C08/C11",
         "Twisted Deferred / DelayedCall / LoopingCall semantics as summarised at the top of Model/Consumer.v (exercised, not verified)",
-        "theorems about single steps hold in every model state; run-level theorems assume the interpreter fuel is not exhausted (OFuel absent), "
-        "which the correspondence confirms for every generated case",
+        "theorems about single steps hold in every model state; the run-level theorems (C14_backoff_index, C14_attempt_limit, reachable-state "
+        "invariant) assume the interpreter fuel is not exhausted (all_fuel_ok: no OFuel output), which the correspondence confirms for every "
+        "generated case (the implementation never emits it and the traces are equal)",
+        "C14_unlimited_reachable: with limit 0 the count ends the consumer only while shutdown() has suspended the unlimited retries "
+        "(consumer.py:408-410); that the flag implies a shutdown in progress is checked by the monitor, not Qed",
     ]
     ck.cov["trusted_base"] += ["correspondence harness harness/props/C14.py + consumer_lib.py + vlib.py",
                                "extracted OCaml runner (ExtrOcamlBasic) cross-checked by vm_compute sample"]
